@@ -111,8 +111,11 @@ def size(p) -> int:
 
 
 def run_one(algo: str, rep_name: str, gname: str, seed: int, budget: int, own_tracker: bool = False):
-    considered, start = GRAMMARS[gname]
+    considered, start = GRAMMARS["full" if gname == "usable" else gname]
     g = extract_grammar(considered, start)
+    if gname == "usable":
+        # the reachable sub-grammar, as the library derives it (its production order feeds every choice)
+        g = g.usable_grammar()
     r = NativeRandomSource(seed)
     if rep_name == "tree":
         rep = TreeBasedRepresentation(g, MaxDepthDecider(r, g, 5))
